@@ -442,7 +442,7 @@ func (g *c08Gen) primary(depth int) {
 	if depth <= 0 {
 		switch g.r.Intn(8) {
 		case 0:
-			g.w(Pick(g.r, []string{"0", "1", "42", "1_000", "0x1F", "0o17", "0b101", "1Ki", "0700", "1.5M"}))
+			g.w(Pick(g.r, []string{"0", "1", "42", "1_000", "0x1F", "0o17", "0b101", "1Ki", "0700", "1.5M", "-1", "-42"}))
 		case 1:
 			g.w(Pick(g.r, []string{"1.5", ".5", "1.", "1e3", "1E3", "2.5e-3"}))
 		case 2:
@@ -630,11 +630,13 @@ func (g *c08Gen) decls(depth, n int, inStruct bool) {
 			g.w(Pick(g.r, []string{"", "", ",", "\n", ",\n", " " + g.comment() + "\n"}))
 		}
 	}
-	if inStruct && n > 0 && g.r.Chance(1, 10) {
-		if !strings.HasSuffix(g.sb.String(), "\n") && !strings.HasSuffix(g.sb.String(), ",") {
-			g.w(",")
+	if inStruct && n > 0 && g.r.Chance(1, 10) && g.noCmt == 0 {
+		// the struct ellipsis in its regular place: on its own line, last (the one-line form `a: 1, ...}`
+		// is a characterised shape of its own, reached by the nl-remove mutation)
+		if !strings.HasSuffix(g.sb.String(), "\n") {
+			g.w("\n")
 		}
-		g.w(Pick(g.r, []string{"...", "..._", "...int"}))
+		g.w(Pick(g.r, []string{"...", "..._", "...int"}) + "\n")
 	}
 }
 
